@@ -4,6 +4,8 @@
   the model's acceptance decision (`Chain.logAR`, `Chain.decision`, `Decision.accepted`,
   `Decision.ar`, `Decision.usesUniform`) about which the C01 theorems are proved.
   The NaN test of the code (`numpy.isnan(ar)` → raise) is outside the rational model.
+  At beta = 0 the code computes `logp - current_logp` (repair of the 0 * -inf defect): equal to the
+  model's `logAR` because `logl * 0 = 0` for every finite `logl` (`C01_source_logar`, case `beta = 0`).
 -/
 import EpsieModel.Generated.Source
 import EpsieModel.Chain
@@ -20,23 +22,40 @@ theorem C01_source_logar (beta : Rat) (cur : St) (logl logp : Rat) (symmetric : 
       = ((d.accepted (Src.draw us), d.ar), if d.usesUniform then us.tail else us) := by
   intro d
   unfold Gen.acceptanceRatio
-  cases symmetric
-  · have hl : logp + logl * beta - cur.logp - cur.logl * beta + (rev - fwd)
-        = logAR beta cur logl logp (hOf false rev fwd) := by simp [logAR, hOf]
-    simp only [Bool.not_false, if_true, hl]
-    by_cases hpos : logAR beta cur logl logp (hOf false rev fwd) > 0
-    · have hd : d = .sure := by simp [d, decision, hpos]
-      simp [hpos, hd, Decision.accepted, Decision.ar, Decision.usesUniform]
-    · have hd : d = .draw (logAR beta cur logl logp (hOf false rev fwd)) := by simp [d, decision, hpos]
-      simp [hpos, hd, Decision.accepted, Decision.ar, Decision.usesUniform, Src.uLe]
-  · have hl : logp + logl * beta - cur.logp - cur.logl * beta
-        = logAR beta cur logl logp (hOf true rev fwd) := by simp [logAR, hOf, Rat.add_zero]
-    simp only [Bool.not_true, Bool.false_eq_true, if_false, hl]
-    by_cases hpos : logAR beta cur logl logp (hOf true rev fwd) > 0
-    · have hd : d = .sure := by simp [d, decision, hpos]
-      simp [hpos, hd, Decision.accepted, Decision.ar, Decision.usesUniform]
-    · have hd : d = .draw (logAR beta cur logl logp (hOf true rev fwd)) := by simp [d, decision, hpos]
-      simp [hpos, hd, Decision.accepted, Decision.ar, Decision.usesUniform, Src.uLe]
+  have key : ∀ (l0 : Rat), l0 = logp + logl * beta - cur.logp - cur.logl * beta →
+      (if (!symmetric) = true then
+        (if decide (l0 + (rev - fwd) > 0) = true then ((true, AR.one), us)
+         else ((Src.uLe (Src.draw us) (AR.exp (l0 + (rev - fwd))), AR.exp (l0 + (rev - fwd))), us.tail))
+       else
+        (if decide (l0 > 0) = true then ((true, AR.one), us)
+         else ((Src.uLe (Src.draw us) (AR.exp l0), AR.exp l0), us.tail)))
+      = ((d.accepted (Src.draw us), d.ar), if d.usesUniform then us.tail else us) := by
+    intro l0 hl0
+    cases symmetric
+    · have hl : l0 + (rev - fwd) = logAR beta cur logl logp (hOf false rev fwd) := by
+        simp [logAR, hOf, hl0]
+      simp only [Bool.not_false, if_true, hl]
+      by_cases hpos : logAR beta cur logl logp (hOf false rev fwd) > 0
+      · have hd : d = .sure := by simp [d, decision, hpos]
+        simp [hpos, hd, Decision.accepted, Decision.ar, Decision.usesUniform]
+      · have hd : d = .draw (logAR beta cur logl logp (hOf false rev fwd)) := by simp [d, decision, hpos]
+        simp [hpos, hd, Decision.accepted, Decision.ar, Decision.usesUniform, Src.uLe]
+    · have hl : l0 = logAR beta cur logl logp (hOf true rev fwd) := by
+        simp [logAR, hOf, hl0, Rat.add_zero]
+      simp only [Bool.not_true, Bool.false_eq_true, if_false, hl]
+      by_cases hpos : logAR beta cur logl logp (hOf true rev fwd) > 0
+      · have hd : d = .sure := by simp [d, decision, hpos]
+        simp [hpos, hd, Decision.accepted, Decision.ar, Decision.usesUniform]
+      · have hd : d = .draw (logAR beta cur logl logp (hOf true rev fwd)) := by simp [d, decision, hpos]
+        simp [hpos, hd, Decision.accepted, Decision.ar, Decision.usesUniform, Src.uLe]
+  by_cases hb : beta = 0
+  · -- infinite temperature: the code leaves the likelihood out; `logl * 0 = 0` in exact arithmetic
+    simp only [hb, decide_true, if_true]
+    have := key (logp - cur.logp) (by subst hb; simp [Rat.mul_zero, Rat.add_zero, Rat.sub_eq_add_neg, Rat.neg_zero])
+    simpa using this
+  · simp only [hb, decide_false, Bool.false_eq_true, if_false]
+    have := key (logp + logl * beta - cur.logp - cur.logl * beta) rfl
+    simpa using this
 
 /-- The term the translated code adds is the model's joint Hastings term when the reported joint
     densities are the sums over the contributing constituents (`JointProposal._logpdf`). -/
